@@ -35,13 +35,15 @@ pub fn campaigns(p: Prop) -> Vec<Campaign> {
     // each case starts from a generated fill level
     let cb = |name, engine, kinds, max_ops, cases| Campaign { name, engine, kinds, max_ops, cases, caps: Some(&crate::case::BIG_CAPS), fault: false };
     // maps and sets of 300 slots holding more than 255 entries (see maphist::wide)
+    // unsized borrowed keys cut from one buffer (`maphist/src/slices.rs`)
+    let cs = |cases| Campaign { name: "slices-of-one-buffer", engine: Slices, kinds: &[P], max_ops: 24, cases, caps: None, fault: false };
     let cw = |cases| Campaign { name: "wide-over-255-entries", engine: Wide, kinds: &[P], max_ops: 16, cases, caps: None, fault: false };
     // long histories (hundreds of operations) on small containers: state that only goes wrong after
     // many operations or every k-th call (counters, generations, parity)
     let cl = |name, engine, kinds| Campaign { name, engine, kinds, max_ops: 400, cases: (16, 500), caps: Some(&[1, 2, 3, 4, 5]), fault: false };
     use Engine::*;
     match p {
-        Prop::C01 => vec![c("map-histories", MapHist, &[T, T, T, P, P, STR, ZK, ZV, ND, ZB, TG, PA, L], 40, (2500, 150_000)), cb("map-big", MapHist, &[T, T, P], 30, (100, 4000)), cw((25, 1000)), cl("map-long-histories", MapHist, &[T, T, P])],
+        Prop::C01 => vec![c("map-histories", MapHist, &[T, T, T, P, P, STR, ZK, ZV, ND, ZB, TG, PA, L], 40, (2500, 150_000)), cb("map-big", MapHist, &[T, T, P], 30, (100, 4000)), cw((25, 1000)), cl("map-long-histories", MapHist, &[T, T, P]), cs((300, 12_000))],
         Prop::C02 => vec![c("map-ownership", MapHist, &[T], 40, (2000, 100_000)), c("set-ownership", SetHist, &[T], 40, (1200, 60_000)), cb("map-big", MapHist, &[T], 30, (100, 4000)), cb("set-big", SetHist, &[T], 30, (60, 2500)), cl("map-long-histories", MapHist, &[T, T, P]), cl("set-long-histories", SetHist, &[T, T, P])],
         Prop::C03 => vec![
             c("map-overflow", MapHist, &[T, T, T, P, P, L, L, STR, ZK, ZV], 24, (2000, 80_000)),
@@ -50,7 +52,7 @@ pub fn campaigns(p: Prop) -> Vec<Campaign> {
             Campaign { name: "map-faults", engine: MapHist, kinds: &[T, T, T, ND, P], max_ops: 12, cases: (400, 8000), caps: Some(&[0, 1, 2, 3, 4, 5]), fault: true },
             Campaign { name: "set-faults", engine: SetHist, kinds: &[T, T, T, ND, P], max_ops: 12, cases: (250, 5000), caps: Some(&[0, 1, 2, 3, 4, 5]), fault: true },
         ],
-        Prop::C05 => vec![Campaign { name: "map-invariants-under-user-panics", engine: MapHist, kinds: &[T, T, P, ND], max_ops: 10, cases: (50, 2000), caps: Some(&[0, 1, 2, 3, 4, 5]), fault: true }, Campaign { name: "set-invariants-under-user-panics", engine: SetHist, kinds: &[T, P, ND], max_ops: 10, cases: (30, 1200), caps: Some(&[0, 1, 2, 3, 4, 5]), fault: true }, c("map-invariants", MapHist, &[T, T, P, STR, ZK, ZV, ZB, PA, L], 40, (2000, 100_000)), c("set-invariants", SetHist, &[T, T, P, P, ZK], 40, (1200, 60_000)), cb("map-big", MapHist, &[T, P], 30, (100, 4000)), cb("set-big", SetHist, &[T, P], 30, (60, 2500)), cw((25, 1000)), cl("map-long-histories", MapHist, &[T, T, P]), cl("set-long-histories", SetHist, &[T, T, P])],
+        Prop::C05 => vec![Campaign { name: "map-invariants-under-user-panics", engine: MapHist, kinds: &[T, T, P, ND], max_ops: 10, cases: (50, 2000), caps: Some(&[0, 1, 2, 3, 4, 5]), fault: true }, Campaign { name: "set-invariants-under-user-panics", engine: SetHist, kinds: &[T, P, ND], max_ops: 10, cases: (30, 1200), caps: Some(&[0, 1, 2, 3, 4, 5]), fault: true }, c("map-invariants", MapHist, &[T, T, P, STR, ZK, ZV, ZB, PA, L], 40, (2000, 100_000)), c("set-invariants", SetHist, &[T, T, P, P, ZK], 40, (1200, 60_000)), cb("map-big", MapHist, &[T, P], 30, (100, 4000)), cb("set-big", SetHist, &[T, P], 30, (60, 2500)), cw((25, 1000)), cl("map-long-histories", MapHist, &[T, T, P]), cl("set-long-histories", SetHist, &[T, T, P]), cs((300, 12_000))],
         Prop::C06 => vec![
             c("map-noalloc", MapHist, &[P, P, P, L, ZK, ZV, ND, ZB], 40, (1500, 60_000)),
             c("set-noalloc", SetHist, &[P, P, ND, ZK], 40, (1000, 40_000)),
@@ -58,28 +60,37 @@ pub fn campaigns(p: Prop) -> Vec<Campaign> {
             cb("map-big-noalloc", MapHist, &[P, ND], 30, (80, 3000)),
             cb("set-big-noalloc", SetHist, &[P, ND], 30, (50, 2000)),
             cw((25, 1000)),
+            cs((300, 12_000)),
         ],
-        Prop::C07 => vec![c("set-histories", SetHist, &[T, T, T, P, P, STR, ZK, ND, TG, PA], 40, (2500, 150_000)), cb("set-big", SetHist, &[T, T, P], 30, (100, 4000)), cw((25, 1000)), cl("set-long-histories", SetHist, &[T, T, P])],
-        Prop::C08 => vec![c("set-algebra", SetAlg, &[T, T, P], 28, (1500, 60_000))],
+        Prop::C07 => vec![c("set-histories", SetHist, &[T, T, T, P, P, STR, ZK, ND, TG, PA], 40, (2500, 150_000)), cb("set-big", SetHist, &[T, T, P], 30, (100, 4000)), cw((25, 1000)), cl("set-long-histories", SetHist, &[T, T, P]), cs((300, 12_000))],
+        Prop::C08 => vec![c("set-algebra", SetAlg, &[T, T, P], 28, (1500, 60_000)), cs((300, 12_000))],
         Prop::C09 => vec![c("map-walks", MapHist, &[T, T, T, P, P, STR, ZK, ZV, ZB, L], 40, (2000, 80_000)), c("set-walks", SetHist, &[T, T, P, P, ZK], 40, (1000, 40_000)), cb("map-big", MapHist, &[T, P], 24, (80, 3000)), cw((25, 1000)), cl("map-long-histories", MapHist, &[T, T, P])],
         Prop::C10 => vec![c("map-consume", MapHist, &[T, T, T, P, P, STR, ZK, ZV, ZB, TG, L], 40, (2000, 80_000)), c("set-consume", SetHist, &[T, T, P, P, ZK], 40, (1000, 40_000)), cb("map-big", MapHist, &[T, P], 24, (80, 3000)), cw((25, 1000)), cl("map-long-histories", MapHist, &[T, T, P])],
         Prop::C11 => vec![Campaign { name: "entry-closures-that-panic", engine: MapHist, kinds: &[T, T, P], max_ops: 8, cases: (40, 1500), caps: Some(&[0, 1, 2, 3, 4, 5]), fault: true }, c("entry", MapHist, &[T, T, T, P, P, STR, ZV, ZB, TG, L], 40, (2500, 120_000)), cb("map-big", MapHist, &[T, P], 30, (80, 3000)), cl("map-long-histories", MapHist, &[T, T, P])],
-        Prop::C12 => vec![c("map-key-identity", MapHist, &[T, T, TG], 40, (2000, 100_000)), c("set-key-identity", SetHist, &[T, T, TG], 40, (1200, 60_000)), cb("map-big", MapHist, &[T], 30, (80, 3000)), cb("set-big", SetHist, &[T], 30, (60, 2500)), cl("map-long-histories", MapHist, &[T, T, P]), cl("set-long-histories", SetHist, &[T, T, P])],
-        Prop::C13 => vec![c("disjoint", MapHist, &[T, T, STR, P, PA, PA, L], 30, (1500, 60_000)), cb("map-big", MapHist, &[T, T, P], 24, (80, 3000)), cw((25, 1000))],
-        Prop::C14 => vec![c("map-equality", MapEq, &[T, P], 24, (2000, 100_000)), c("set-equality", SetAlg, &[T, P], 24, (1000, 50_000)), c("map-equality-histories", MapHist, &[T, T, P], 30, (600, 30_000)), cb("map-equality-big", MapHist, &[T, P], 24, (100, 4000)), cw((25, 1000))],
+        Prop::C12 => vec![c("map-key-identity", MapHist, &[T, T, TG], 40, (2000, 100_000)), c("set-key-identity", SetHist, &[T, T, TG], 40, (1200, 60_000)), cb("map-big", MapHist, &[T], 30, (80, 3000)), cb("set-big", SetHist, &[T], 30, (60, 2500)), cl("map-long-histories", MapHist, &[T, T, P]), cl("set-long-histories", SetHist, &[T, T, P]), cs((300, 12_000))],
+        Prop::C13 => vec![c("disjoint", MapHist, &[T, T, STR, P, PA, PA, L], 30, (1500, 60_000)), cb("map-big", MapHist, &[T, T, P], 24, (80, 3000)), cw((25, 1000)), cs((300, 12_000))],
+        Prop::C14 => vec![c("map-equality", MapEq, &[T, P], 24, (2000, 100_000)), c("set-equality", SetAlg, &[T, P], 24, (1000, 50_000)), c("map-equality-histories", MapHist, &[T, T, P], 30, (600, 30_000)), cb("map-equality-big", MapHist, &[T, P], 24, (100, 4000)), cw((25, 1000)), cs((300, 12_000))],
         Prop::C15 => vec![c("map-clone", MapHist, &[T, T, T, ND, ND, P, ZB, ZK, L], 40, (2000, 100_000)), c("set-clone", SetHist, &[T, T, T, ND, ND, ZK], 40, (1000, 50_000)), cb("map-big", MapHist, &[T, ND], 24, (60, 2500)), cw((25, 1000)), cl("map-long-histories", MapHist, &[T, T, P])],
         Prop::C16 => vec![c("map-bulk", MapHist, &[T, T, P, TG, L], 12, (2500, 120_000)), c("set-bulk", SetHist, &[T, T, P, TG], 12, (2000, 100_000)), cb("map-big", MapHist, &[T, P], 8, (60, 2500)), cb("set-big", SetHist, &[T, P], 8, (60, 2500))],
         Prop::C17 => vec![c("map-liar", MapHist, &[T], 40, (2500, 150_000)), c("set-liar", SetHist, &[T], 40, (1500, 80_000)), c("alg-liar", SetAlg, &[T], 24, (800, 40_000)), cb("map-big", MapHist, &[T], 30, (80, 3000))],
         Prop::C18 => vec![c("unchecked-lockstep", MapHist, &[T, T, P, STR, TG, ND, PA, L], 40, (2500, 150_000)), cb("map-big", MapHist, &[T, T, P], 30, (100, 4000)), cl("map-long-histories", MapHist, &[T, T, P])],
-        Prop::C19 => vec![c("map-fmt", MapHist, &[T, P, P, STR, STR, L, ZK, ZV, ZV, ZB], 30, (1500, 60_000)), c("set-fmt", SetHist, &[T, P, STR, ZK], 30, (1000, 40_000)), c("alg-fmt", SetAlg, &[P, STR], 20, (600, 30_000)), cb("map-big", MapHist, &[P, T], 16, (40, 1500))],
+        Prop::C19 => vec![c("map-fmt", MapHist, &[T, P, P, STR, STR, L, ZK, ZV, ZV, ZB], 30, (1500, 60_000)), c("set-fmt", SetHist, &[T, P, STR, ZK], 30, (1000, 40_000)), c("alg-fmt", SetAlg, &[P, STR], 20, (600, 30_000)), cb("map-big", MapHist, &[P, T], 16, (40, 1500)), cs((300, 12_000))],
         Prop::C20 => vec![],
     }
 }
 
 /// Property-specific op weights for bulk-heavy campaigns are in the engines; here only the
 /// non-triviality predicates over the class counters of one executed case.
+/// pseudo-capacity under which the slices engine reports its cases
+pub const SLICES_N: usize = 1005;
+
 pub fn nontrivial(p: Prop, st: &[u64; NS], n: usize) -> bool {
     let g = |s: S| st[s as usize];
+    if n == SLICES_N {
+        // slices engine: >=1 lookup through another slice than the stored key, and either a
+        // get_disjoint_mut whose keys share a start address or >=2 mutations
+        return g(S::twin_queries) >= 1 && (g(S::shared_start_queries) >= 1 || g(S::mutations) >= 2);
+    }
     if n == 300 {
         // wide engine: the case ran at least one op on a container holding more than 255 entries
         return g(S::reached_full) >= 1 && g(S::ops) >= 1;
